@@ -178,7 +178,19 @@ def run(ctx):
                             "after quiescence of a '%s' run (%d callers, every call returned) connection.invokeNum = %d: %d requests written, "
                             "%d packets received (%d runs of this kind)" % (t[0]["cls"], t[0]["k"], tinv[sc][0], nd, nr, len(tres[kind])),
                             {"scenario": sc, "config": t[0], "quiesce": t[-1], "trace": t[:300]})
-    if tres["differs-from-model"]:
+    if len(tres["differs-from-model"]) >= 2:
+        # the two recorded deviations of this counter are exactly "requests written minus packets received"; a counter that is
+        # something else after quiescence is a different residue (one run alone may be a packet still on its way)
+        sc = tres["differs-from-model"][0]
+        t = bysc[sc]
+        nd = sum(1 for e in t if e["e"] == "Dequeued")
+        nr = sum(1 for e in t if e["e"] == "NetRecv")
+        ctx.violate("C09:residue:transport-invokeNum:not-requests-minus-packets",
+                    "after quiescence of a '%s' run (%d callers, every call returned) connection.invokeNum = %d although %d requests were written "
+                    "and %d packets received (expected %d); %d runs deviate like this" % (t[0]["cls"], t[0]["k"], tinv[sc][0], nd, nr, tinv[sc][1],
+                                                                                         len(tres["differs-from-model"])),
+                    {"scenario": sc, "config": t[0], "quiesce": t[-1], "trace": t[:300]})
+    elif tres["differs-from-model"]:
         ctx.notes.append("connection.invokeNum differs from requests written - packets received in scenarios %s" % tres["differs-from-model"][:10])
     ncalls = sum(t[0]["k"] for t in traces)
     outcomes = {}
